@@ -26,7 +26,8 @@ VARIABLES n, mut, fail, roIn,     \* the scenario: #consumers, declared MutatesD
                                   \* moment of the call (graph level: as transformed by the processors of c's pipeline)
           pre,                    \* [1..n -> set of markers] markers legitimately written upstream of c (processors
                                   \* of c's own pipeline; {} for a plain fan-out)
-          origProc,               \* a declared-mutating processor stage was handed the caller's own object (graph level)
+          origProc,               \* graph level: a processor declared mutating -- or a connector that is, or that feeds
+                                  \* a pipeline advertising mutation -- was handed the caller's own object
           held,                   \* consumers that have been invoked so far
           view,                   \* [0..MaxN -> view record]  current views (slot 0 = caller)
           dlv,                    \* [1..MaxN -> view record]  view at the moment of delivery
